@@ -12,7 +12,8 @@ CONFIG = dict(
           "(containers, constructor calls with arguments, applied states/items, sharing through its "
           "effect) is compared with the VM's; (b) plain data: generated acyclic values at protocols 0-5 "
           "(framed/unframed, C and Python picklers) are decompiled, executed with the real builtins and "
-          "compared with the original by type and ==.  A case is one distinct byte string; non-trivial = "
+          "compared with the original by type and ==; pairs of them are also delivered back to back behind a header "
+          "through seekable streams of several kinds at a non-zero offset and as a stack.  A case is one distinct byte string; non-trivial = "
           "accepted by both sides and the value contains a container or an object."),
     assumptions=[
         "CPython's pickle._Unpickler with stub globals is the reference VM",
@@ -24,7 +25,7 @@ CONFIG = dict(
     min_nontrivial={"quick": 2000, "thorough": 50000},
     nshards={"quick": 16, "thorough": 16},
     timeout={"quick": 900, "thorough": 7200},
-    required_counters=("value_checks", "plain_checks"),
+    required_counters=("value_checks", "plain_checks", "plain_delivery_checks"),
 )
 
 CONTAINER_TAGS = ("list", "tuple", "dict", "set", "frozenset", "obj")
@@ -215,11 +216,100 @@ def plain_check(ctx, label, data, value):
                                       got=repr(got)[:300]))
 
 
+def _eval_plain(src):
+    g = {"__builtins__": dict(vars(builtins), __import__=_plain_import)}
+    exec(compile(src, "<decompiled-plain>", "exec"), g)
+    return g["result"]
+
+
+def plain_deliveries(ctx, label, first, second):
+    """Two plain pickles back to back behind a header, delivered as bytes-at-offset streams of several
+    kinds and read with consecutive Pickled.load calls (and as a stack): each decompile still evaluates
+    to its own value."""
+    import io
+    import os
+    import tempfile
+    f = de.fickle()
+    agg = ctx.agg
+    (d1, v1), (d2, v2) = first, second
+    blob = b"HDR" + d1 + d2
+    fd, path = tempfile.mkstemp(prefix="vp-c05-")
+    os.write(fd, blob)
+    os.close(fd)
+
+    class Plain(io.RawIOBase):          # seekable, readable, neither BytesIO nor a real file
+        def __init__(self, b):
+            self._b = io.BytesIO(b)
+
+        def readable(self):
+            return True
+
+        def seekable(self):
+            return True
+
+        def readinto(self, buf):
+            return self._b.readinto(buf)
+
+        def seek(self, *a):
+            return self._b.seek(*a)
+
+        def tell(self):
+            return self._b.tell()
+
+    try:
+        for kind in ("bytesio", "file", "unbuffered-file", "raw-seekable", "buffered-raw", "stack-file"):
+            if kind == "bytesio":
+                st = io.BytesIO(blob)
+            elif kind in ("file", "stack-file"):
+                st = open(path, "rb")
+            elif kind == "unbuffered-file":
+                st = open(path, "rb", buffering=0)
+            elif kind == "raw-seekable":
+                st = Plain(blob)
+            else:
+                st = io.BufferedReader(Plain(blob))
+            try:
+                st.seek(3)
+                try:
+                    if kind == "stack-file":
+                        parts = list(f.StackedPickle.load(st))
+                    else:
+                        parts = [f.Pickled.load(st), f.Pickled.load(st)]
+                    got = [_eval_plain(ast.unparse(p.ast)) for p in parts[:2]]
+                except RecursionError:
+                    return
+                except BaseException as e:
+                    agg.violation(f"plain-delivery-refused:{kind}",
+                                  f"two plain pickles behind a 3-byte header, delivered as {kind}: {type(e).__name__}: {str(e)[:100]}",
+                                  diffrun.witness(label, blob, None, kind=kind, values=[repr(v1)[:100], repr(v2)[:100]]))
+                    continue
+                agg.count("plain_delivery_checks")
+                if len(got) != 2 or not same(got[0], v1) or not same(got[1], v2):
+                    agg.violation(f"plain-delivery-value-differs:{kind}",
+                                  f"consecutive loads from a {kind} stream at an offset decompile to different values",
+                                  diffrun.witness(label, blob, None, kind=kind, values=[repr(v1)[:100], repr(v2)[:100]],
+                                                  got=[repr(x)[:100] for x in got]))
+            finally:
+                st.close()
+    finally:
+        os.unlink(path)
+
+
 def run_shard(ctx):
     diffrun.run(ctx, oracle, deep_need={"reduce", "obj", "inst", "newobj", "newobj_ex", "build", "binpersid"})
     n = {"quick": 1200, "thorough": 25000}[ctx.tier]
+    prev, i = None, 0
+    f = de.fickle()
     for label, data, v in workload.natural(ctx, n, plain_only=True, with_value=True):
         plain_check(ctx, "plain-" + label, data, v)
+        names = gen.op_names(data)
+        if not is_plain(v) or names is None or not all(
+                n_ in f.OPCODES_BY_NAME and f.OPCODES_BY_NAME[n_].run is not f.Opcode.run for n_ in names):
+            continue
+        i += 1
+        if prev is not None and i % 3 == 0:
+            plain_deliveries(ctx, "plain-delivery-" + label, prev, (data, v))
+        prev = (data, v)
 
 
 def replay(ctx, payload):
